@@ -25,6 +25,14 @@ def gen_history(seed, i):
     g = schemagen.SchemaGen(r, profile="F", max_depth=2, avoid_known=True)
     doc = g.document(ndefs=r.randrange(2, 7))
     defs = doc["definitions"]
+    if r.random() < 0.3:
+        # an untagged union of string-like definitions, named so that it sorts before (or after) its alternatives:
+        # its conversion impls are decided from what the alternatives answer at the time it is finalised
+        un = r.choice(["ASelector", "ZSelector"])
+        defs[un] = {"oneOf": [{"$ref": "#/definitions/MZoneName"}, {"$ref": "#/definitions/MZoneSize"}]}
+        defs["MZoneName"] = {"type": "string", "enum": ["north", "south-east"]}
+        defs["MZoneSize"] = r.choice([{"type": "string", "pattern": "^[0-9]+(k|m)$"}, {"type": "string", "enum": ["s", "xl"]},
+                                      {"type": "string", "format": "uuid"}])
     comps = workloads.components(defs)
     r.shuffle(comps)
     steps = []
@@ -172,6 +180,7 @@ def run(tier, seed, replay=None):
         if st != "ok":
             rep.count("history_ended_by_" + st)
         prev = None
+        prev_keys = None
         first_ident = {}
         bad = False
         for si, snap in enumerate(snaps):
@@ -211,6 +220,30 @@ def run(tier, seed, replay=None):
                     rep.violation("types_disappeared", "-", {"step": si}, case=case)
                     bad = True
                     break
+                # what an earlier type answers to has_impl, and the items rendered for it, are part of what it resolves to
+                for old, new in zip(prev, types):
+                    if old.get("has_impl") != new.get("has_impl"):
+                        rep.violation("type_changed", "%s:has_impl" % old["kind"],
+                                      {"step": si, "op": step["op"], "type": old["name"], "before": old.get("has_impl"),
+                                       "after": new.get("has_impl")}, case=case)
+                        bad = True
+                        break
+                if bad:
+                    break
+                if prev_keys is not None and snap.get("item_keys") is not None:
+                    old_names = {norm(t["name"]) for t in prev if t.get("name") and t["kind"] in ("struct", "enum", "newtype")}
+                    def about_old(k):
+                        return (k[1] in ("struct", "enum") and norm(k[2] or "") in old_names) or \
+                            (k[1] == "impl" and norm((k[4] or "").replace("super::", "")) in old_names)
+                    before = {tuple(k) for k in prev_keys if about_old(k)}
+                    after = {tuple(k) for k in snap["item_keys"] if about_old(k)}
+                    if before != after:
+                        diff = sorted(map(str, before ^ after))[:4]
+                        rep.violation("earlier_type_rendered_differently", "after %s" % step["op"],
+                                      {"step": si, "op": step["op"], "differing_items": diff}, case=case)
+                        bad = True
+                        break
+                    rep.count("earlier_items_stable")
             # id map sanity: the id the API returned names the same thing as iter_types()[id-1]
             ret = (steps[si].get("ret") or {})
             rid = ret.get("id")
@@ -248,6 +281,7 @@ def run(tier, seed, replay=None):
                     else:
                         first_ident[key] = (rid, ident, len(items or []))
             prev = types
+            prev_keys = snap.get("item_keys")
         if bad:
             continue
         rep.count("history_consistent")
